@@ -2,11 +2,13 @@ package main
 
 import (
 	"context"
+	"encoding/hex"
 	"fmt"
 	"github.com/ajitpratap0/GoSQLX/pkg/gosqlx"
 	"reflect"
 	"runtime/debug"
 	"strings"
+	"time"
 
 	"github.com/ajitpratap0/GoSQLX/pkg/models"
 	"github.com/ajitpratap0/GoSQLX/pkg/sql/ast"
@@ -375,4 +377,54 @@ func runC08(c *runCtx) {
 		}
 		tokenizer.PutTokenizer(q)
 	}
+	// what a call answers in this process — after everything above has run here: thousands of parses, failures of every
+	// kind, pooled instances, package-level caches of the helper packages warmed by other inputs — is what it answers in a
+	// process that has done nothing else (a fresh child process per input is the reference)
+	{
+		probes := []string{"SELECT (1", "SELECT a FROM t ORDER", "SELECT a FROM t GROUP", "DELETE t", "UPDATE t a", "INSERT INTO t VALUES", "SELECT a FROM t WHERE (b = 1", "SELECT CASE WHEN a THEN 1",
+			"SELECT a FROM t JOIN u", "SELECT a FROM", "CREATE TABLE t (a INT", "SELECT CAST(a AS", "SELECT a FROM t LIMIT", "WITH c AS (SELECT 1", "SELECT a b c", "SELECT 'open", "SELECT a FROM t WHERE a IN (1,",
+			"SELECT f(1,", "MERGE INTO t USING u", "SELECT a FROM t UNION", "ALTER TABLE t", "DROP", "SELECT a FROM t WHERE a BETWEEN 1", "SELECT a FROM t ORDER BY a NULLS", "SELECT 1 FROM t FETCH FIRST"}
+		g3 := newSQLGen(c.rng.Fork())
+		g3.Plain = true
+		for len(probes) < c.n(70, 500) {
+			if cs := corruptions(c.rng, g3.Statement(), 2); len(cs) > 0 {
+				probes = append(probes, cs...)
+			}
+		}
+		for _, in := range probes {
+			fresh := newChildPool()
+			ref := fresh.Run("x:errtext", []byte(in), 20*time.Second)
+			fresh.Close()
+			here := c08ErrTexts([]byte(in))
+			res.count("fresh-process|"+in, true)
+			if ref == "crash" || ref == "hang" || ref == "child-start-failed" {
+				res.stat("fresh-process-reference-failed")
+				continue
+			}
+			if ref != here {
+				a, _ := hex.DecodeString(ref)
+				b, _ := hex.DecodeString(here)
+				res.fail("answer-differs-from-fresh-process", "the error texts a call returns in this (long-running) process differ from those of a process that has done nothing else", map[string]any{"input": in},
+					map[string]any{"fresh_process": truncate(string(a), 500), "this_process": truncate(string(b), 500)})
+			}
+		}
+	}
+}
+
+// c08ErrTexts: the full error texts of the byte-string entry points on one input (hex, entries separated by \x00)
+func c08ErrTexts(in []byte) string {
+	var parts []string
+	_, e1 := gosqlx.Parse(string(in))
+	parts = append(parts, fmt.Sprint(e1))
+	parts = append(parts, fmt.Sprint(gosqlx.Validate(string(in))))
+	parts = append(parts, fmt.Sprint(parser.Validate(string(in))))
+	_, errs := gosqlx.ParseWithRecovery(string(in))
+	for _, e := range errs {
+		parts = append(parts, fmt.Sprint(e))
+	}
+	return hex.EncodeToString([]byte(strings.Join(parts, "\x00")))
+}
+
+func init() {
+	childExtras["errtext"] = func(data []byte) string { return c08ErrTexts(data) }
 }
